@@ -134,6 +134,41 @@ func runC14(c *Ctx) {
 				}
 			})
 			peerOK := fields["PeerID"] != nil && fields["PeerID"].Op == "field" && fields["PeerID"].Name == "peerID"
+			if c08Classify(c, g) == "unified" && setLatest != nil {
+				// one routine for both outcomes: the event's Err is the error it is handed, and the latest-synced value is
+				// stored — before the send, the same CID for the same publisher — only where that error is nil
+				c.OK("C14.N3-who-sends", key+" (success)", snd.Pos(), "the notifier for both outcomes, handed a nil error")
+				c.OK("C14.N3-who-sends", key+" (failure)", snd.Pos(), "the notifier for both outcomes, handed the sync's error")
+				_, onNil := c.Guarded(setLatest, EqNil(Is(fields["Err"])), true)
+				c.Check(onNil, "C14.N2-latest-before-event", key+" (failure) › latest untouched", snd.Pos(), "the latest-synced value is stored only on the nil edge of the error handed in", "failure path stores a latest-synced value")
+				c.Check(MayFollow(setLatest, snd) && !MayFollow(snd, setLatest), "C14.N2-latest-before-event", key+" › store ≺ send", snd.Pos(), "latest-synced value stored before the event is sent", "event sent before the latest-synced value is stored: a listener reacting to it reads a stale value")
+				sameCid := fields["Cid"] != nil && len(setX.Args) >= 3 && Same(setX.Args[2], fields["Cid"])
+				samePeer := peerOK && len(setX.Args) >= 2 && Same(setX.Args[1], fields["PeerID"])
+				c.Check(sameCid && samePeer, "C14.N2-latest-before-event", key+" › same CID and publisher", snd.Pos(), "the value stored and the value announced are the same CID for the same publisher", "event announces a different CID/publisher than the one stored as latest")
+				cidOK := fields["Cid"] != nil && fields["Cid"].Op == "param"
+				cntOK := fields["Count"] != nil && fields["Count"].Op == "param"
+				c.Check(peerOK && cidOK && cntOK, "C14.N5-event-fields", key+" (success)", snd.Pos(), "event carries the notifier's CID and count parameters and the handler's publisher", "success event fields do not come from the finished sync")
+				// a failure carries no count: every call site that hands in an error hands in the constant 0
+				zeroCnt, nFailSites := true, 0
+				if sites, known := c.staticCallSites(g); known {
+					for _, site := range sites {
+						if c08ClassifySite(c, site) != "failure" {
+							continue
+						}
+						nFailSites++
+						for i, prm := range g.Params {
+							if cp, isP := fields["Count"].V.(*ssa.Parameter); isP && prm == cp && i < len(site.Common().Args) {
+								if k, isC := site.Common().Args[i].(*ssa.Const); !isC || k.Value == nil || k.Value.ExactString() != "0" {
+									zeroCnt = false
+								}
+							}
+						}
+					}
+				}
+				c.Check(peerOK && cidOK && zeroCnt && nFailSites > 0, "C14.N5-event-fields", key+" (failure)", snd.Pos(),
+					"event carries the announced CID, the handler's publisher and the error; no count", "failure event fields do not come from the failed sync")
+				return
+			}
 			if fields["Err"] != nil {
 				// failure path
 				c.OK("C14.N3-who-sends", key+" (failure)", snd.Pos(), "announce failure path")
@@ -255,6 +290,10 @@ func c14Distributor(c *Ctx, dist *ssa.Function) {
 	}
 	snd := sends[0]
 	chx := c.E(snd.Chan)
+	// (the list may hold the listeners' queues rather than their input channels: the send is then on In() of the element)
+	if m, ok := Match(CallLike([]string{"chanqueue.ChanQueue[", ").In["}, Bind("q")), chx); ok {
+		chx = strip(m["q"])
+	}
 	var list *X
 	if chx.Op == "index" {
 		list = chx.Args[0]
@@ -389,6 +428,13 @@ func c14Distributor(c *Ctx, dist *ssa.Function) {
 			}
 		}
 	}
+	for _, cs := range c.Calls(dist, CallLike([]string{"chanqueue.ChanQueue[", ").Close["}, Any())) {
+		if a := strip(cs.X.Args[0]); a != nil && a.Op == "index" && list != nil && Same(a.Args[0], list) && inCase(cs.In.Block(), idx["inEvents"]) {
+			if _, ok := c.Guarded(cs.In, Extract("", Is(selX)), false); ok {
+				closedAll = true // Close() of the queue closes its input side
+			}
+		}
+	}
 	c.Check(closedAll, "C14.N4-distributor", key+" › closes every listener on shutdown", sel.Pos(), "when the event channel is closed every listener channel is closed", "listener channels are not all closed when the event channel closes")
 }
 
@@ -418,6 +464,13 @@ func readOnlySliceFunc(fn *ssa.Function) bool {
 // and Close, never blocks on a listener that does not read).
 func listenerQueuesUnbounded(c *Ctx, rule string) {
 	nReg := 0
+	// a listener's queue is ended with Close (what is queued is still delivered), never with Shutdown (which discards
+	// it: notifications already accepted for a slow listener would vanish when it is cancelled)
+	for _, f := range c.Funcs(dagsyncPkg) {
+		for _, cs := range c.Calls(f.SSA, CallLike([]string{"chanqueue.ChanQueue[", ").Shutdown["}, Any())) {
+			c.Bad(rule, c.short(topFunc(cs.Fn).String())+" › queue discarded", cs.In.Pos(), "a listener's queue is shut down rather than closed: the notifications still queued for it are discarded instead of delivered before its channel closes")
+		}
+	}
 	{
 		for _, ss := range c.SendSites(dagsyncPkg) {
 			if cx := strip(ss.Chan); cx.Op != "field" || cx.Name != "addEventChan" {
@@ -432,6 +485,12 @@ func listenerQueuesUnbounded(c *Ctx, rule string) {
 			key := c.short(topFunc(g).String()) + " › registered channel"
 			b, ok := Match(CallLike([]string{"chanqueue.ChanQueue[", ").In["}, BindP("q", CallLike([]string{"chanqueue.New["}))), x)
 			isIn := ok && strings.Contains(strip(x).Name, ").In[")
+			if !isIn {
+				// the queue itself is registered (the distributor takes its input side when it forwards)
+				if b2, ok2 := Match(BindP("q", CallLike([]string{"chanqueue.New["})), x); ok2 {
+					b, isIn = b2, true
+				}
+			}
 			if !isIn {
 				c.Bad(rule, key, pos, "channel registered with the distributor is not the input side of a chanqueue: "+x.String())
 				continue
@@ -470,13 +529,13 @@ func listenerQueuesUnbounded(c *Ctx, rule string) {
 func syncedHeadRecorded(c *Ctx, rule string, sendFns []*ssa.Function) {
 	handle := c15HandleFn(c)
 	for _, sf := range sendFns {
-		if c08Classify(c, sf) != "success" {
+		if k := c08Classify(c, sf); k != "success" && k != "unified" {
 			continue
 		}
 		for _, f := range c.Funcs(dagsyncPkg) {
 			instrs(f.SSA, func(in ssa.Instruction) {
 				ci, ok := in.(ssa.CallInstruction)
-				if !ok || ci.Common().StaticCallee() != sf {
+				if !ok || ci.Common().StaticCallee() != sf || c08ClassifySite(c, ci) != "success" {
 					return
 				}
 				x := c.CallX(ci)
